@@ -9,19 +9,19 @@ def _c(tech, text):
 
 CHECKS["C01"] = _c("sibling type-table agreement (AST + go/types table extraction)",
     "Decides that the generator's YANG→Go type map, the JSON decoder's type maps and per-kind assertions, the encoder's wide-number stringification and the leaf-list element tables agree for every YANG kind; a disagreement is a kind whose every value fails the JSON round trip.")
-CHECKS["C02"] = _c("type-table agreement + sign-conversion / wildcard-guard lints",
-    "Decides that the gNMI wrapper produced per YANG kind is one the decoder accepts, every key kind has a string form and both parsers, no sign-changing integer conversion formats a key, and '*' is a wildcard only under GetNode's option.")
-CHECKS["C03"] = _c("lexical guard analysis of ygot.diff + append-ownership lint",
+CHECKS["C02"] = _c("type-table agreement + writer/reader agreement on empty leaf-lists + skip-reason, sign-conversion, integer-base, constant-format and wildcard-guard lints",
+    "Decides that the gNMI wrapper produced per YANG kind is one the decoder accepts, every key kind has a string form and both parsers, the leaf walkers skip a field only for accepted reasons and never emit the empty leaf-list the decoder refuses, integers are parsed and rendered in base 10, no sign-changing or 64-bit-to-float conversion touches a value, and '*' is a wildcard only under GetNode's option.")
+CHECKS["C03"] = _c("lexical guard analysis of ygot.diff + skip-reason and empty-leaf-list writer/reader rules + append-ownership lint",
     "Decides the guards of diff (delete ⇔ absent in modified; update ⇔ !reflect.DeepEqual; additions ⇔ absent in original ∧ no IgnoreAdditions), PathToString-keyed leaf maps, cloned parent paths, and that no diff code appends onto a slice it does not own.")
 CHECKS["C04"] = _c("provenance analysis of destination sinks in the copy family",
     "Decides that every value written into a DeepCopy/Merge destination is fresh, the destination's own, or a source value proved non-reference by a dominating guard; deepCopy copies into a fresh root; MergeStructs merges into the deep copy.")
-CHECKS["C05"] = _c("copy-family provenance + option-forwarding lint",
+CHECKS["C05"] = _c("copy-family provenance + option-forwarding lint + interface-identity lint (== / map key on reflect Interface() values only for list map keys)",
     "Decides that merge options reach every recursive copy call, that MergeStructs deep-copies a and never uses an input as destination, and the copy-family sink discipline.")
-CHECKS["C06"] = _c("abstract evaluation of isInRange over 13 orderings + unit (byte/rune) and sign-conversion lints",
+CHECKS["C06"] = _c("abstract evaluation of isInRange over 13 orderings + unit (byte/rune, reaching definitions) and sign-conversion lints + memo-key completeness of the regexp cache (parameter dependence analysis)",
     "Decides that isInRange is the closed interval under every weak ordering of (val,min,max), isInRanges is ∃ with empty⇒true, lengths are counted in the RFC's units, every pattern is checked without early success, and no byte/rune or sign confusion exists in the validators and the pattern sanitizer.")
 CHECKS["C07"] = _c("static-call reachability of checkers from Validate + silent-skip lint",
     "Decides that each checker the property names is statically reachable from Validate through its dispatcher arm and that no validator loop silently skips an iteration; three unreachable checks are recorded as known findings.")
-CHECKS["C08"] = _c("partial evaluation of the rune state machines against the encoder's escape set",
+CHECKS["C08"] = _c("partial evaluation of the rune state machines against the encoder's escape set + constant-format-string lint",
     "Decides that every rune the decoders interpret inside a key value is escaped by the encoder, that the splitter tracks escapes inside keys, that no non-injective normaliser is applied, and that keys are formatted sorted; one unescaped rune ('\\\\') is a recorded known finding.")
 CHECKS["C09"] = _c("early-return discipline in relation folds (AST) + wildcard operand tracing",
     "Decides that only the absorbing relation is returned from inside the comparison loops, that no map-range in util/gnmi.go returns two different results, and that '*' is compared on the sides that may carry it.")
@@ -33,7 +33,7 @@ CHECKS["C13"] = _c("statement-order and loop-shape analysis of ytypes/gnmi.go",
     "Decides the phase order delete ≺ replace ≺ update, per-replace delete-then-write, in-order iteration with the prefix joined, that no notification/path is skipped, and the atomic prefix delete.")
 CHECKS["C14"] = _c("flag monotonicity + guard analysis of pruneBranchesInternal",
     "Decides that the result flag is monotone, every Set writes a zero value into an empty struct-pointer/ordered-map field, ordered maps are recognised before dereference, and leaf fields are compared with their zero value.")
-CHECKS["C16"] = _c("type-table agreement for key kinds + sign-conversion / wildcard-guard lints",
+CHECKS["C16"] = _c("type-table agreement for key kinds + exact-key-comparison, integer-base, constant-format, sign-conversion and wildcard-guard lints",
     "Decides that every supported key kind has a string form and both parsers, that binary keys are rejected by the generator, that no sign-changing conversion formats a key and that '*' is literal outside GetNode's wildcard option.")
 CHECKS["C18"] = _c("float→int precondition rule, per-arm must-use of range-checking parsers, parse-error discipline",
     "Decides that float→integer conversions are preceded by a sound integrality and range test, that integer TypedValues reach leaves only through StringToType, that every parse error is returned, and that kind tests precede both dispatches.")
